@@ -254,7 +254,7 @@ func c30Mutate(r *rand.Rand, sdp string, n int) (string, []string) {
 		if len(lines) == 0 {
 			lines = []string{"v=0"}
 		}
-		switch k := r.Intn(29); k {
+		switch k := r.Intn(32); k {
 		case 0:
 			kinds = append(kinds, "drop")
 			i := pick()
@@ -350,6 +350,41 @@ func c30Mutate(r *rand.Rand, sdp string, n int) (string, []string) {
 					}
 					insertAt(dst, l)
 				}
+			}
+		case 29, 30:
+			// msid forms (0/1/2/3 tokens, empty, trailing space), usually with the a=ssrc / a=rid lines stripped:
+			// the undeclared-SSRC path reads a=msid only then
+			kinds = append(kinds, "msid-forms")
+			forms := []string{"a=msid:", "a=msid: ", "a=msid:s", "a=msid:s ", "a=msid:s t", "a=msid:s t u", "a=msid: t", "a=msid:s  t", "a=msid"}
+			strip := r.Intn(4) != 0
+			out := lines[:0]
+			seen := false
+			for _, l := range lines {
+				if strip && (strings.HasPrefix(l, "a=ssrc") || strings.HasPrefix(l, "a=rid") || strings.HasPrefix(l, "a=simulcast")) {
+					continue
+				}
+				if strings.HasPrefix(l, "a=msid:") {
+					seen = true
+					l = forms[r.Intn(len(forms))]
+				}
+				out = append(out, l)
+			}
+			lines = out
+			if !seen {
+				insertAt(inSection(), forms[r.Intn(len(forms))])
+			}
+		case 31:
+			// keep a single media section (handleIncomingSSRC's shortcut applies to such descriptions only)
+			kinds = append(kinds, "single-section")
+			ms := mIdx()
+			if len(ms) > 1 {
+				k := r.Intn(len(ms))
+				hi := len(lines)
+				if k+1 < len(ms) {
+					hi = ms[k+1]
+				}
+				sec := append([]string{}, lines[ms[k]:hi]...)
+				lines = append(append([]string{}, lines[:ms[0]]...), sec...)
 			}
 		case 24, 25:
 			// token level: duplicate / append / drop a token of one line
@@ -711,7 +746,7 @@ func c30Gen(c *Ctx) {
 		}
 	}
 	// 2. mutated descriptions
-	n := c.N(2400, 20000)
+	n := c.N(2400, 16000)
 	for i := 0; i < n; i++ {
 		b := bases[r.Intn(len(bases))]
 		sem := r.Intn(3)
